@@ -96,6 +96,21 @@ impl Prop {
         }
     }
 
+    /// Capacities covered by the sparse boundary space (`gen_enum::large`) on top of the exhaustive ones.
+    pub fn large_caps(self, thorough: bool) -> Vec<usize> {
+        let v: Vec<usize> = match (self, thorough) {
+            (Prop::C01 | Prop::C03 | Prop::C07 | Prop::C08 | Prop::C09 | Prop::C20, false) => vec![32, 33, 64, 65, 128, 129, 256, 1000],
+            (Prop::C01 | Prop::C03 | Prop::C07 | Prop::C08 | Prop::C09 | Prop::C20, true) => vec![17, 31, 32, 33, 64, 65, 100, 128, 129, 255, 256, 1000],
+            (Prop::C04 | Prop::C10 | Prop::C11 | Prop::C12, false) => vec![33, 64, 65, 256],
+            (Prop::C04 | Prop::C10 | Prop::C11 | Prop::C12, true) => vec![32, 33, 64, 65, 128, 129, 256, 1000],
+            (Prop::C05 | Prop::C06, false) => vec![33, 64, 65],
+            (Prop::C05 | Prop::C06, true) => vec![32, 33, 64, 65, 128, 129],
+            _ => vec![],
+        };
+        let caps = self.caps(thorough);
+        v.into_iter().filter(|n| !caps.contains(n)).collect()
+    }
+
     pub fn rule(self) -> &'static str {
         match self {
             Prop::C01 => "non-trivial: the op changed the contents, returned Some/Err, hit a documented panic, or had a boundary/out-of-range argument; distinct by case hash (N, layout, op, arguments)",
@@ -133,6 +148,15 @@ impl Prop {
 
     pub fn enum_cases(self, n: usize, start: usize, len: usize, thorough: bool) -> Vec<Item> {
         let plain = |v: Vec<Case>| v.into_iter().map(|c| Item { case: c, kinds: vec![] }).collect::<Vec<_>>();
+        if !self.caps(thorough).contains(&n) {
+            // a unit of the sparse boundary space for the larger capacities
+            let kinds = match self {
+                Prop::C05 => vec![FaultKind::Drop],
+                Prop::C06 => vec![FaultKind::Clone, FaultKind::Make, FaultKind::IterStep, FaultKind::Eq],
+                _ => vec![],
+            };
+            return ge::large(n, start, len).into_iter().map(|c| Item { case: c, kinds: kinds.clone() }).collect();
+        }
         match self {
             Prop::C01 => plain(ge::c01(n, start, len)),
             Prop::C02 => plain(ge::c02(n, start, len)),
